@@ -154,7 +154,7 @@ def run(chk, replay=None):
         alphabet += [[dict(base, align="dpd2", scalar=1), {"R1": "bw", "R2": "bwff"}, 0], [dict(base, align="axis", coup=1), {"R2": "bwff"}, 0],
                      [dict(base, align="dpd1", stable="one"), {"R1": "bwff"}, 1]]
     histories += pair_histories(alphabet)
-    reactions = [("jpsi_ksp_sigma", "helicity"), ("synth:11", "canonical-helicity"), ("jpsi_ksp_sigma@orig", "helicity")] + ([("jpsi_3pi_rho", "helicity"), ("synth:5", "helicity")] if tier == "thorough" else [])
+    reactions = [("jpsi_ksp_sigma", "helicity"), ("synth:11", "canonical-helicity"), ("jpsi_ksp_sigma@orig", "helicity"), ("jpsi_gpp_omega@orig", "helicity")] + ([("jpsi_3pi_rho", "helicity"), ("synth:5", "helicity")] if tier == "thorough" else [])
     seeds = [None, 0, 12345] + ([1] if tier == "thorough" else [])
 
     hk = [keys_along(h) for h in histories]
